@@ -54,7 +54,7 @@ func fromTJSON(j J, w *bytes.Buffer) {
 	}
 }
 
-func tStr(s string) J           { return Obj{"s": cwf.StrToJ(s)} }
+func tStr(s string) J { return Obj{"s": cwf.StrToJ(s)} }
 func tObj(members ...any) J {
 	if members == nil {
 		members = []any{}
